@@ -31,7 +31,10 @@ theorem exception_identity {k : Kind} {s : State} (h : Reachable k s) :
     ∀ x ∈ s.exits, ∀ e, x.out = .raise e → e ∈ x.delivAt :=
   (good_reachable h).ident
 
-/-- **Ordered notify** (PriorityCondition).  For a waiter queue `q` without repetitions,
+/-- **Ordered notify** (PriorityCondition).  `(notifyFn …).2` lists the waiters *in the order in which the
+walk sets their futures* (hence in which their wake-ups are queued), so the first conjunct also says that
+this order is the (priority, arrival) order — for `notify_all` and over-long `n` as for any other `n`.
+  For a waiter queue `q` without repetitions,
 `_notify(n)` sets the futures of exactly the first `max n 1` not-yet-notified waiters in
 (priority at wait start, arrival) order [`n = 0` wakes one: the loop tests `count >= n` after
 setting], leaves every other future alone, and that order is sorted and a permutation of the
